@@ -1,15 +1,918 @@
-//! Extension `events` of the Yata executor (see ext/mod.rs for the contract).
-use crate::yata::World;
-use serde_json::Value;
+//! Extension `events` of the Yata executor (C11, see ext/mod.rs for the contract).
+//!
+//! On every replica a shallow observer (`observe`) and a deep observer (`observe_deep_with`) are installed on each
+//! root type. The callbacks only copy what the library reports (edit scripts, paths, targets) into an inbox; after
+//! the step the raw scripts are converted to element ids (through the value tags / branch ids) and
+//!   * applied to SHADOW copies that are never updated in any other way (one shallow shadow per root, one deep shadow
+//!     per root and per nested type; a nested type's shadow is initialised from its content when it is first seen),
+//!   * attached to the event of the step as `ev["c11"]` (scripts, shadows, firing counts, paths) for V.
+//! The step `{"a":"multi","r":..,"ops":[..]}` executes several local operations inside ONE transaction.
+use crate::codec::{self, Id};
+use crate::obs::{self, RootKind};
+use crate::yata::{panic_msg, World};
+use serde_json::{json, Map as JMap, Value};
+use std::cell::RefCell;
+use std::collections::{BTreeMap, BTreeSet, HashMap};
+use std::panic::{catch_unwind, AssertUnwindSafe};
+use std::rc::Rc;
+use yrs::types::{Change, Delta, EntryChange, Event, Events, PathSegment};
+use yrs::{
+    Any, Array, ArrayPrelim, BranchID, DeepObservable, Map, MapPrelim, Observable, OffsetKind, Out, ReadTxn, Text, Transact, TransactionMut,
+};
 
-pub fn init(_w: &mut World) {}
-
-pub fn step(_w: &mut World, _st: &Value) -> Option<Value> {
-    None
+#[derive(Clone)]
+enum RawVal {
+    Text(String),
+    Any(Any),
+    Branch(Id),
+    Other,
 }
 
-pub fn after_step(_w: &mut World, _st: &Value, _ev: &mut Value) {}
+#[derive(Clone)]
+enum RawOp {
+    Ins(Vec<RawVal>),
+    Del(u32),
+    Ret(u32),
+    /// a chunk that carries formatting attributes (nothing is ever formatted by the executor)
+    Attr,
+}
 
-pub fn random_step(_w: &mut World, _authors: &[u64], _all: &[u64]) -> Option<Value> {
-    None
+#[derive(Clone)]
+enum RawKey {
+    Ins(RawVal),
+    Upd(RawVal, RawVal),
+    Rem(RawVal),
+}
+
+#[derive(Clone)]
+enum RawScript {
+    Seq(Vec<RawOp>),
+    Keys(Vec<(String, RawKey)>),
+}
+
+/// identity of an observed type: root name, or id of the type element of a nested type
+#[derive(Clone, PartialEq, Eq, PartialOrd, Ord, Debug)]
+enum TypeKey {
+    Root(String),
+    Nested(Id),
+}
+
+struct RawEvent {
+    target: Option<TypeKey>,
+    kind: char,
+    script: RawScript,
+    path: Vec<(String, u32)>,
+    pathok: bool,
+}
+
+#[derive(Default)]
+struct Inbox {
+    shallow: Vec<(String, RawEvent)>,
+    deep: Vec<(String, Vec<RawEvent>)>,
+}
+
+#[derive(Clone)]
+enum Shadow {
+    Seq(Vec<Id>),
+    Map(BTreeMap<String, Id>),
+}
+
+struct DeepShadow {
+    root: String,
+    kind: char,
+    sh: Shadow,
+}
+
+#[derive(Default)]
+struct RepShadows {
+    shallow: BTreeMap<String, Shadow>,
+    deep: BTreeMap<TypeKey, DeepShadow>,
+}
+
+struct EvExt {
+    inbox: Vec<Rc<RefCell<Inbox>>>,
+    shadows: Vec<RepShadows>,
+    _subs: Vec<yrs::Subscription>,
+}
+
+fn raw_val(o: &Out) -> RawVal {
+    match o {
+        Out::Any(Any::String(s)) => RawVal::Text(s.to_string()),
+        Out::Any(a) => RawVal::Any(a.clone()),
+        other => match other.try_branch().map(|b| b.id()) {
+            Some(BranchID::Nested(id)) => RawVal::Branch((id.client.get(), id.clock)),
+            _ => RawVal::Other,
+        },
+    }
+}
+
+/// values of an array / map keep strings as values; only text chunks are split into characters
+fn raw_elem(o: &Out) -> RawVal {
+    match o {
+        Out::Any(a) => RawVal::Any(a.clone()),
+        other => raw_val(other),
+    }
+}
+
+fn type_key(o: &Out) -> Option<TypeKey> {
+    match o.try_branch().map(|b| b.id()) {
+        Some(BranchID::Nested(id)) => Some(TypeKey::Nested((id.client.get(), id.clock))),
+        Some(BranchID::Root(n)) => Some(TypeKey::Root(n.to_string())),
+        None => None,
+    }
+}
+
+fn text_script(d: &[Delta]) -> RawScript {
+    let mut ops = Vec::new();
+    for x in d {
+        match x {
+            Delta::Inserted(v, attrs) => {
+                if attrs.as_ref().map(|a| !a.is_empty()).unwrap_or(false) {
+                    ops.push(RawOp::Attr);
+                }
+                ops.push(RawOp::Ins(vec![raw_val(v)]));
+            }
+            Delta::Deleted(n) => ops.push(RawOp::Del(*n)),
+            Delta::Retain(n, attrs) => {
+                if attrs.as_ref().map(|a| !a.is_empty()).unwrap_or(false) {
+                    ops.push(RawOp::Attr);
+                }
+                ops.push(RawOp::Ret(*n));
+            }
+        }
+    }
+    RawScript::Seq(ops)
+}
+
+fn array_script(d: &[Change]) -> RawScript {
+    let mut ops = Vec::new();
+    for x in d {
+        match x {
+            Change::Added(vs) => ops.push(RawOp::Ins(vs.iter().map(raw_elem).collect())),
+            Change::Removed(n) => ops.push(RawOp::Del(*n)),
+            Change::Retain(n) => ops.push(RawOp::Ret(*n)),
+        }
+    }
+    RawScript::Seq(ops)
+}
+
+fn keys_script(d: &std::collections::HashMap<std::sync::Arc<str>, EntryChange>) -> RawScript {
+    let mut ks: Vec<(String, RawKey)> = d
+        .iter()
+        .map(|(k, c)| {
+            let c = match c {
+                EntryChange::Inserted(n) => RawKey::Ins(raw_elem(n)),
+                EntryChange::Updated(o, n) => RawKey::Upd(raw_elem(o), raw_elem(n)),
+                EntryChange::Removed(o) => RawKey::Rem(raw_elem(o)),
+            };
+            (k.to_string(), c)
+        })
+        .collect();
+    ks.sort_by(|a, b| a.0.cmp(&b.0));
+    RawScript::Keys(ks)
+}
+
+fn root_out<T: ReadTxn>(txn: &T, name: &str, kind: RootKind) -> Option<Out> {
+    match kind {
+        RootKind::Text => txn.get_text(name).map(Out::YText),
+        RootKind::Array => txn.get_array(name).map(Out::YArray),
+        RootKind::Map => txn.get_map(name).map(Out::YMap),
+    }
+}
+
+/// follows a reported path from the observed root through the CURRENT document
+fn follow<T: ReadTxn>(txn: &T, root: Out, path: &[(String, u32)]) -> Option<Out> {
+    let mut cur = root;
+    for (k, i) in path {
+        cur = match &cur {
+            Out::YMap(m) if !k.is_empty() => m.get(txn, k)?,
+            Out::YArray(a) if k.is_empty() => a.get(txn, *i)?,
+            _ => return None,
+        };
+    }
+    Some(cur)
+}
+
+fn deep_event(txn: &TransactionMut, root: &str, kind: RootKind, e: &Event) -> RawEvent {
+    let (k, script) = match e {
+        Event::Text(t) => ('t', text_script(t.delta(txn))),
+        Event::Array(a) => ('a', array_script(a.delta(txn))),
+        Event::Map(m) => ('m', keys_script(m.keys(txn))),
+        _ => ('?', RawScript::Seq(vec![])),
+    };
+    let path: Vec<(String, u32)> = e
+        .path()
+        .iter()
+        .map(|s| match s {
+            PathSegment::Key(k) => (k.to_string(), 0),
+            PathSegment::Index(i) => (String::new(), *i),
+        })
+        .collect();
+    let target = type_key(&e.target());
+    let reached = root_out(txn, root, kind).and_then(|r| follow(txn, r, &path)).and_then(|o| type_key(&o));
+    let pathok = target.is_some() && reached == target;
+    RawEvent { target, kind: k, script, path, pathok }
+}
+
+/// formatted text, embeds, sub-documents and XML trees (cfg `rich` / `xml` of the executor) are not modelled by Events.tla:
+/// in such behaviours the extension stays passive (no observers, no `c11` field) instead of raising false alarms
+fn unsupported(w: &World) -> bool {
+    w.cfg["rich"].as_bool().unwrap_or(false) || w.cfg["xml"].as_bool().unwrap_or(false)
+}
+
+pub fn init(w: &mut World) {
+    if unsupported(w) {
+        return;
+    }
+    let mut inbox = Vec::new();
+    let mut shadows = Vec::new();
+    let mut subs = Vec::new();
+    for rep in &w.reps {
+        let ib: Rc<RefCell<Inbox>> = Rc::new(RefCell::new(Inbox::default()));
+        let mut rs = RepShadows::default();
+        let txn = rep.doc.transact();
+        for (name, kind) in &w.roots {
+            let nm = name.clone();
+            let kd = *kind;
+            let (i1, i2) = (ib.clone(), ib.clone());
+            let (n1, n2) = (nm.clone(), nm.clone());
+            match kind {
+                RootKind::Text => {
+                    let t = txn.get_text(name.as_str()).unwrap();
+                    subs.push(t.observe(move |txn, e| {
+                        let ev = RawEvent { target: Some(TypeKey::Root(n1.clone())), kind: 't', script: text_script(e.delta(txn)), path: vec![], pathok: true };
+                        if let Ok(mut b) = i1.try_borrow_mut() {
+                            b.shallow.push((n1.clone(), ev));
+                        }
+                    }));
+                    t.observe_deep_with("c11", move |txn: &TransactionMut, es: &Events| {
+                        let v: Vec<RawEvent> = es.iter().map(|e| deep_event(txn, &n2, kd, e)).collect();
+                        if let Ok(mut b) = i2.try_borrow_mut() {
+                            b.deep.push((n2.clone(), v));
+                        }
+                    });
+                    rs.shallow.insert(nm.clone(), Shadow::Seq(vec![]));
+                    rs.deep.insert(TypeKey::Root(nm.clone()), DeepShadow { root: nm.clone(), kind: 't', sh: Shadow::Seq(vec![]) });
+                }
+                RootKind::Array => {
+                    let a = txn.get_array(name.as_str()).unwrap();
+                    subs.push(a.observe(move |txn, e| {
+                        let ev = RawEvent { target: Some(TypeKey::Root(n1.clone())), kind: 'a', script: array_script(e.delta(txn)), path: vec![], pathok: true };
+                        if let Ok(mut b) = i1.try_borrow_mut() {
+                            b.shallow.push((n1.clone(), ev));
+                        }
+                    }));
+                    a.observe_deep_with("c11", move |txn: &TransactionMut, es: &Events| {
+                        let v: Vec<RawEvent> = es.iter().map(|e| deep_event(txn, &n2, kd, e)).collect();
+                        if let Ok(mut b) = i2.try_borrow_mut() {
+                            b.deep.push((n2.clone(), v));
+                        }
+                    });
+                    rs.shallow.insert(nm.clone(), Shadow::Seq(vec![]));
+                    rs.deep.insert(TypeKey::Root(nm.clone()), DeepShadow { root: nm.clone(), kind: 'a', sh: Shadow::Seq(vec![]) });
+                }
+                RootKind::Map => {
+                    let m = txn.get_map(name.as_str()).unwrap();
+                    subs.push(m.observe(move |txn, e| {
+                        let ev = RawEvent { target: Some(TypeKey::Root(n1.clone())), kind: 'm', script: keys_script(e.keys(txn)), path: vec![], pathok: true };
+                        if let Ok(mut b) = i1.try_borrow_mut() {
+                            b.shallow.push((n1.clone(), ev));
+                        }
+                    }));
+                    m.observe_deep_with("c11", move |txn: &TransactionMut, es: &Events| {
+                        let v: Vec<RawEvent> = es.iter().map(|e| deep_event(txn, &n2, kd, e)).collect();
+                        if let Ok(mut b) = i2.try_borrow_mut() {
+                            b.deep.push((n2.clone(), v));
+                        }
+                    });
+                    rs.shallow.insert(nm.clone(), Shadow::Map(BTreeMap::new()));
+                    rs.deep.insert(TypeKey::Root(nm.clone()), DeepShadow { root: nm.clone(), kind: 'm', sh: Shadow::Map(BTreeMap::new()) });
+                }
+            }
+        }
+        drop(txn);
+        inbox.push(ib);
+        shadows.push(rs);
+    }
+    w.ext.insert("events".into(), Box::new(EvExt { inbox, shadows, _subs: subs }));
+}
+
+// ---------------------------------------------------------------------------------------------
+// conversion to element ids and script application (the observation function of C11)
+
+struct Conv<'a> {
+    tags: &'a obs::Tags,
+}
+
+impl<'a> Conv<'a> {
+    fn ids(&self, v: &RawVal) -> Vec<Id> {
+        match v {
+            RawVal::Text(s) => s.chars().map(|c| self.tags.of_char(c)).collect(),
+            RawVal::Any(a) => vec![self.tags.of_any(a)],
+            RawVal::Branch(id) => vec![*id],
+            RawVal::Other => vec![(0, 0)],
+        }
+    }
+    fn one(&self, v: &RawVal) -> Id {
+        match v {
+            RawVal::Text(s) => self.tags.of_any(&Any::String(s.as_str().into())),
+            RawVal::Any(a) => self.tags.of_any(a),
+            RawVal::Branch(id) => *id,
+            RawVal::Other => (0, 0),
+        }
+    }
+}
+
+#[derive(Default)]
+struct Flags {
+    applyok: bool,
+    oldok: bool,
+    pathok: bool,
+    routeok: bool,
+}
+
+fn script_json(c: &Conv, s: &RawScript) -> (Value, Value) {
+    match s {
+        RawScript::Seq(ops) => {
+            let v: Vec<Value> = ops
+                .iter()
+                .map(|o| match o {
+                    RawOp::Ins(vs) => {
+                        let ids: Vec<Id> = vs.iter().flat_map(|x| c.ids(x)).collect();
+                        json!(["ins", 0, obs::idsv(&ids)])
+                    }
+                    RawOp::Del(n) => json!(["del", n, []]),
+                    RawOp::Ret(n) => json!(["ret", n, []]),
+                    RawOp::Attr => json!(["attr", 0, []]),
+                })
+                .collect();
+            (Value::Array(v), json!([]))
+        }
+        RawScript::Keys(ks) => {
+            let v: Vec<Value> = ks
+                .iter()
+                .map(|(k, ch)| match ch {
+                    RawKey::Ins(n) => json!([k, "ins", [0, 0], obs::idv(c.one(n))]),
+                    RawKey::Upd(o, n) => json!([k, "upd", obs::idv(c.one(o)), obs::idv(c.one(n))]),
+                    RawKey::Rem(o) => json!([k, "rem", obs::idv(c.one(o)), [0, 0]]),
+                })
+                .collect();
+            (json!([]), Value::Array(v))
+        }
+    }
+}
+
+fn apply(c: &Conv, sh: &mut Shadow, s: &RawScript, unit: u32, fl: &mut Flags) {
+    match (sh, s) {
+        (Shadow::Seq(v), RawScript::Seq(ops)) => {
+            let mut pos = 0usize;
+            for o in ops {
+                match o {
+                    RawOp::Ret(n) | RawOp::Del(n) => {
+                        if n % unit != 0 {
+                            fl.applyok = false;
+                        }
+                        let mut k = (n / unit) as usize;
+                        if pos + k > v.len() {
+                            fl.applyok = false;
+                            k = v.len() - pos;
+                        }
+                        if let RawOp::Ret(_) = o {
+                            pos += k;
+                        } else {
+                            v.drain(pos..pos + k);
+                        }
+                    }
+                    RawOp::Ins(vs) => {
+                        let ids: Vec<Id> = vs.iter().flat_map(|x| c.ids(x)).collect();
+                        let n = ids.len();
+                        v.splice(pos..pos, ids);
+                        pos += n;
+                    }
+                    RawOp::Attr => fl.applyok = false,
+                }
+            }
+        }
+        (Shadow::Map(m), RawScript::Keys(ks)) => {
+            for (k, ch) in ks {
+                match ch {
+                    RawKey::Ins(n) => {
+                        if m.contains_key(k) {
+                            fl.oldok = false;
+                        }
+                        m.insert(k.clone(), c.one(n));
+                    }
+                    RawKey::Upd(o, n) => {
+                        if m.get(k) != Some(&c.one(o)) {
+                            fl.oldok = false;
+                        }
+                        m.insert(k.clone(), c.one(n));
+                    }
+                    RawKey::Rem(o) => {
+                        if m.get(k) != Some(&c.one(o)) {
+                            fl.oldok = false;
+                        }
+                        m.remove(k);
+                    }
+                }
+            }
+        }
+        _ => fl.applyok = false,
+    }
+}
+
+fn shadow_json(sh: &Shadow) -> (Value, Value) {
+    match sh {
+        Shadow::Seq(v) => (obs::idsv(v), json!({})),
+        Shadow::Map(m) => {
+            let mut o = JMap::new();
+            for (k, id) in m {
+                o.insert(k.clone(), json!([obs::idv(*id)]));
+            }
+            (json!([]), Value::Object(o))
+        }
+    }
+}
+
+fn out_id(o: &Out, tags: &obs::Tags) -> Id {
+    match o {
+        Out::Any(a) => tags.of_any(a),
+        other => match other.try_branch().map(|b| b.id()) {
+            Some(BranchID::Nested(id)) => (id.client.get(), id.clock),
+            _ => (0, 0),
+        },
+    }
+}
+
+/// content of a type as read through the public API (used once per nested type, at first sight)
+fn read_shadow<T: ReadTxn>(txn: &T, o: &Out, tags: &obs::Tags) -> Option<(char, Shadow)> {
+    match o {
+        Out::YText(t) => {
+            let s = yrs::GetString::get_string(t, txn);
+            Some(('t', Shadow::Seq(s.chars().map(|c| tags.of_char(c)).collect())))
+        }
+        Out::YArray(a) => Some(('a', Shadow::Seq(a.iter(txn).map(|v| out_id(&v, tags)).collect()))),
+        Out::YMap(m) => Some(('m', Shadow::Map(m.iter(txn).map(|(k, v)| (k.to_string(), out_id(&v, tags))).collect()))),
+        _ => None,
+    }
+}
+
+/// all nested types reachable through the public API below `o`
+fn walk_nested<T: ReadTxn>(txn: &T, o: &Out, depth: usize, found: &mut Vec<(Id, Out)>) {
+    if depth > 16 {
+        return;
+    }
+    let kids: Vec<Out> = match o {
+        Out::YArray(a) => a.iter(txn).collect(),
+        Out::YMap(m) => {
+            let mut ks: Vec<(String, Out)> = m.iter(txn).map(|(k, v)| (k.to_string(), v)).collect();
+            ks.sort_by(|a, b| a.0.cmp(&b.0));
+            ks.into_iter().map(|x| x.1).collect()
+        }
+        _ => vec![],
+    };
+    for k in kids {
+        if let Some(TypeKey::Nested(id)) = type_key(&k) {
+            found.push((id, k.clone()));
+            walk_nested(txn, &k, depth + 1, found);
+        }
+    }
+}
+
+pub fn after_step(w: &mut World, _st: &Value, ev: &mut Value) {
+    let r = match ev["k"].as_str() {
+        Some("loc") | Some("dlv") => ev["r"].as_u64(),
+        Some("sync") => ev["t"].as_u64(),
+        _ => None,
+    };
+    let Some(mut bx) = w.ext.remove("events") else { return };
+    if let Some(x) = bx.downcast_mut::<EvExt>() {
+        match r {
+            Some(r) => {
+                let ri = w.rep(r);
+                ev["c11"] = process(w, x, ri, r);
+            }
+            None => {
+                // a step of another extension (its trace action does not evaluate C11): keep the shadows in step
+                // with whatever its transactions reported, attach nothing
+                for ri in 0..w.reps.len() {
+                    let pending = {
+                        let b = x.inbox[ri].borrow();
+                        !b.shallow.is_empty() || !b.deep.is_empty()
+                    };
+                    if pending {
+                        let id = w.reps[ri].id;
+                        let _ = process(w, x, ri, id);
+                    }
+                }
+            }
+        }
+    }
+    w.ext.insert("events".into(), bx);
+}
+
+fn process(w: &World, x: &mut EvExt, ri: usize, r: u64) -> Value {
+    let conv = Conv { tags: &w.tags };
+    let tunit = if w.offset == OffsetKind::Bytes { 3 } else { 1 };
+    let unit_of = |k: char| if k == 't' { tunit } else { 1 };
+    let mut fl = Flags { applyok: true, oldok: true, pathok: true, routeok: true };
+    // nothing may have been delivered to observers of a replica that did not act
+    for (i, ib) in x.inbox.iter().enumerate() {
+        if i != ri {
+            let b = ib.borrow();
+            if !b.shallow.is_empty() || !b.deep.is_empty() {
+                fl.routeok = false;
+            }
+        }
+    }
+    let inbox = std::mem::take(&mut *x.inbox[ri].borrow_mut());
+    let rs = &mut x.shadows[ri];
+    // shallow observers
+    let mut fired: BTreeMap<String, u32> = BTreeMap::new();
+    let mut sscript: BTreeMap<String, (Value, Value)> = BTreeMap::new();
+    for (root, e) in &inbox.shallow {
+        *fired.entry(root.clone()).or_default() += 1;
+        sscript.entry(root.clone()).or_insert_with(|| script_json(&conv, &e.script));
+        match rs.shallow.get_mut(root) {
+            Some(sh) => apply(&conv, sh, &e.script, unit_of(e.kind), &mut fl),
+            None => fl.routeok = false,
+        }
+    }
+    // deep observers
+    let mut deepfired: BTreeMap<String, u32> = BTreeMap::new();
+    let mut dn: BTreeMap<TypeKey, u32> = BTreeMap::new();
+    let mut dscript: BTreeMap<TypeKey, (Value, Value, Value)> = BTreeMap::new();
+    for (root, evs) in &inbox.deep {
+        *deepfired.entry(root.clone()).or_default() += 1;
+        for e in evs {
+            if !e.pathok {
+                fl.pathok = false;
+            }
+            let Some(t) = &e.target else {
+                fl.routeok = false;
+                continue;
+            };
+            *dn.entry(t.clone()).or_default() += 1;
+            let (a, b) = script_json(&conv, &e.script);
+            let path: Vec<Value> = e.path.iter().map(|(k, i)| json!([k, i])).collect();
+            dscript.entry(t.clone()).or_insert((a, b, Value::Array(path)));
+            match rs.deep.get_mut(t) {
+                Some(d) if &d.root == root && d.kind == e.kind => apply(&conv, &mut d.sh, &e.script, unit_of(e.kind), &mut fl),
+                _ => fl.routeok = false,
+            }
+        }
+    }
+    // nested types reachable now; first sight initialises the shadow from the content
+    let mut reachable: BTreeSet<TypeKey> = BTreeSet::new();
+    let mut fresh: BTreeSet<TypeKey> = BTreeSet::new();
+    {
+        let txn = w.reps[ri].doc.transact();
+        for (name, kind) in &w.roots {
+            let Some(ro) = root_out(&txn, name, *kind) else { continue };
+            let mut found = Vec::new();
+            walk_nested(&txn, &ro, 0, &mut found);
+            for (id, o) in found {
+                let key = TypeKey::Nested(id);
+                reachable.insert(key.clone());
+                if !rs.deep.contains_key(&key) {
+                    if let Some((k, sh)) = read_shadow(&txn, &o, &w.tags) {
+                        rs.deep.insert(key.clone(), DeepShadow { root: name.clone(), kind: k, sh });
+                        fresh.insert(key);
+                    }
+                }
+            }
+        }
+    }
+    let kind_s = |k: char| if k == 'm' { "map" } else { "seq" };
+    let mut sh = Vec::new();
+    for (name, kind) in &w.roots {
+        let k = match kind {
+            RootKind::Text => 't',
+            RootKind::Array => 'a',
+            RootKind::Map => 'm',
+        };
+        let (seq, keys) = shadow_json(&rs.shallow[name]);
+        let (sc, ksc) = sscript.remove(name).unwrap_or((json!([]), json!([])));
+        sh.push(json!({"root": name, "kind": kind_s(k), "unit": unit_of(k), "fired": fired.get(name).copied().unwrap_or(0),
+            "seq": seq, "keys": keys, "script": sc, "kscript": ksc}));
+    }
+    let mut dp = Vec::new();
+    for (key, d) in rs.deep.iter() {
+        let n = dn.get(key).copied().unwrap_or(0);
+        let own = match key {
+            TypeKey::Root(_) => (0, 0),
+            TypeKey::Nested(id) => {
+                if !reachable.contains(key) && n == 0 {
+                    continue;
+                }
+                *id
+            }
+        };
+        let (seq, keys) = shadow_json(&d.sh);
+        let (sc, ksc, path) = dscript.remove(key).unwrap_or((json!([]), json!([]), json!([])));
+        dp.push(json!({"own": obs::idv(own), "root": d.root, "kind": kind_s(d.kind), "unit": unit_of(d.kind), "n": n,
+            "fresh": fresh.contains(key), "seq": seq, "keys": keys, "script": sc, "kscript": ksc, "path": path}));
+    }
+    // events whose target has no shadow were counted in dn but have no record: report them as unroutable
+    for key in dn.keys() {
+        if !rs.deep.contains_key(key) {
+            fl.routeok = false;
+        }
+    }
+    let mut df = JMap::new();
+    for (name, _) in &w.roots {
+        df.insert(name.clone(), json!(deepfired.get(name).copied().unwrap_or(0)));
+    }
+    json!({"r": r, "sh": sh, "dp": dp, "deepfired": df, "oldok": fl.oldok, "pathok": fl.pathok, "applyok": fl.applyok, "routeok": fl.routeok})
+}
+
+// ---------------------------------------------------------------------------------------------
+// several local operations inside one transaction
+
+fn nav<T: ReadTxn>(w: &World, txn: &T, path: &[String]) -> Result<Out, String> {
+    let kind = w.roots.iter().find(|r| r.0 == path[0]).map(|r| r.1).ok_or("unknown root")?;
+    let mut cur = root_out(txn, &path[0], kind).ok_or("no root")?;
+    for seg in &path[1..] {
+        cur = if let Some(i) = seg.strip_prefix('#') {
+            let i: u32 = i.parse().map_err(|_| "bad index")?;
+            match &cur {
+                Out::YArray(a) => a.get(txn, i).ok_or(format!("no element {}", i))?,
+                _ => return Err("index into non-array".into()),
+            }
+        } else {
+            match &cur {
+                Out::YMap(m) => m.get(txn, seg).ok_or(format!("no key {}", seg))?,
+                _ => return Err("key into non-map".into()),
+            }
+        };
+    }
+    Ok(cur)
+}
+
+struct Prepared {
+    a: String,
+    path: Vec<String>,
+    idx: u32,
+    n: u32,
+    kind: String,
+    key: String,
+    chars: String,
+    vals: Vec<Any>,
+    inner: Any,
+}
+
+pub fn step(w: &mut World, st: &Value) -> Option<Value> {
+    if st["a"].as_str() != Some("multi") {
+        return None;
+    }
+    let r = st["r"].as_u64().unwrap();
+    let ri = w.rep(r);
+    let mut ops = Vec::new();
+    for o in st["ops"].as_array().cloned().unwrap_or_default() {
+        let n = o["n"].as_u64().unwrap_or(1) as u32;
+        ops.push(Prepared {
+            a: o["a"].as_str().unwrap_or("").to_string(),
+            path: o["p"].as_array().map(|v| v.iter().map(|x| x.as_str().unwrap().to_string()).collect()).unwrap_or_default(),
+            idx: o["i"].as_u64().unwrap_or(0) as u32,
+            n,
+            kind: o["k"].as_str().unwrap_or("u").to_string(),
+            key: o["key"].as_str().unwrap_or("").to_string(),
+            chars: w.fresh_chars(n as usize),
+            vals: (0..n.max(1)).map(|_| w.fresh_val()).collect(),
+            inner: w.fresh_val(),
+        });
+    }
+    let doc = w.reps[ri].doc.clone();
+    let res = catch_unwind(AssertUnwindSafe(|| -> Result<Vec<u8>, String> {
+        let mut txn = doc.transact_mut();
+        for p in &ops {
+            let target = nav(w, &txn, &p.path)?;
+            match (&target, p.a.as_str()) {
+                (Out::YText(t), "ins") => {
+                    let off = w.unit_offset(&txn, t, p.idx);
+                    t.insert(&mut txn, off, &p.chars);
+                }
+                (Out::YText(t), "del") => {
+                    let off = w.unit_offset(&txn, t, p.idx);
+                    let len = w.unit_offset(&txn, t, p.idx + p.n) - off;
+                    t.remove_range(&mut txn, off, len);
+                }
+                (Out::YArray(arr), "ins") => match p.kind.as_str() {
+                    "A" => {
+                        arr.insert(&mut txn, p.idx, ArrayPrelim::from([p.inner.clone()]));
+                    }
+                    "M" => {
+                        arr.insert(&mut txn, p.idx, MapPrelim::from([("k1".to_string(), p.inner.clone())]));
+                    }
+                    _ => {
+                        arr.insert_range(&mut txn, p.idx, p.vals.clone());
+                    }
+                },
+                (Out::YArray(arr), "del") => {
+                    arr.remove_range(&mut txn, p.idx, p.n);
+                }
+                (Out::YMap(m), "set") => match p.kind.as_str() {
+                    "A" => {
+                        m.insert(&mut txn, p.key.clone(), ArrayPrelim::from([p.inner.clone()]));
+                    }
+                    "M" => {
+                        m.insert(&mut txn, p.key.clone(), MapPrelim::from([("k1".to_string(), p.inner.clone())]));
+                    }
+                    _ => {
+                        m.insert(&mut txn, p.key.clone(), p.vals[0].clone());
+                    }
+                },
+                (Out::YMap(m), "rem") => {
+                    m.remove(&mut txn, &p.key);
+                }
+                _ => return Err(format!("step {} not applicable to target", p.a)),
+            }
+        }
+        // what the transaction created, encoded BEFORE commit: an element inserted and deleted inside one
+        // transaction of a collecting replica only ever travels as a collected range, its structure (origins,
+        // parent) is known from here alone
+        Ok(txn.encode_update_v1())
+    }));
+    let mut pre_units: HashMap<Id, Value> = HashMap::new();
+    let outcome = match res {
+        Ok(Ok(pre)) => {
+            if let Ok(wu) = codec::decode_update_v1(&pre) {
+                let (us, _) = w.absorb(&wu);
+                for u in us {
+                    let id = (u["id"][0].as_u64().unwrap_or(0), u["id"][1].as_u64().unwrap_or(0) as u32);
+                    pre_units.insert(id, u);
+                }
+            }
+            "ok".to_string()
+        }
+        Ok(Err(e)) => format!("skip: {}", e),
+        Err(p) => format!("panic: {}", panic_msg(&p)),
+    };
+    let (v1, v2) = w.drain(ri);
+    let (mut upd, problems) = w.emitted(&v1, &v2);
+    if let Some(arr) = upd["ins"].as_array_mut() {
+        for u in arr.iter_mut() {
+            if u["kind"] == "gc" {
+                let id = (u["id"][0].as_u64().unwrap_or(0), u["id"][1].as_u64().unwrap_or(0) as u32);
+                if let Some(p) = pre_units.get(&id) {
+                    *u = p.clone();
+                }
+            }
+        }
+    }
+    let m1 = v1.first().cloned().unwrap_or_else(|| vec![0, 0]);
+    let m2 = v2.first().cloned().unwrap_or_else(|| vec![0, 0, 0, 0, 0, 0, 0, 0, 0, 0, 0, 0, 0]);
+    w.log.push((r, m1, m2));
+    Some(json!({
+        "k": "loc", "r": r, "call": st, "cont": "", "outcome": outcome,
+        "upd": upd, "nev": [v1.len(), v2.len()], "wire": problems.join("; "),
+        "obs": w.observe(ri), "hasfol": w.followers, "fol": w.fol_obs(ri),
+    }))
+}
+
+/// reachable containers of replica `ri`: (path, kind, visible length, keys present)
+fn containers(w: &World, ri: usize) -> Vec<(Vec<String>, char, u32, Vec<String>)> {
+    let txn = w.reps[ri].doc.transact();
+    let mut out = Vec::new();
+    let mut push = |path: Vec<String>, o: &Out, out: &mut Vec<(Vec<String>, char, u32, Vec<String>)>| match o {
+        Out::YText(t) => out.push((path, 't', yrs::GetString::get_string(t, &txn).chars().count() as u32, vec![])),
+        Out::YArray(a) => out.push((path, 'a', a.len(&txn), vec![])),
+        Out::YMap(m) => {
+            let mut ks: Vec<String> = m.keys(&txn).map(|k| k.to_string()).collect();
+            ks.sort();
+            out.push((path, 'm', m.len(&txn), ks))
+        }
+        _ => {}
+    };
+    for (name, kind) in &w.roots {
+        let Some(ro) = root_out(&txn, name, *kind) else { continue };
+        push(vec![name.clone()], &ro, &mut out);
+        match &ro {
+            Out::YArray(a) => {
+                for (i, v) in a.iter(&txn).enumerate() {
+                    push(vec![name.clone(), format!("#{}", i)], &v, &mut out);
+                }
+            }
+            Out::YMap(m) => {
+                let mut ks: Vec<(String, Out)> = m.iter(&txn).map(|(k, v)| (k.to_string(), v)).collect();
+                ks.sort_by(|a, b| a.0.cmp(&b.0));
+                for (k, v) in ks {
+                    push(vec![name.clone(), k], &v, &mut out);
+                }
+            }
+            _ => {}
+        }
+    }
+    out
+}
+
+/// one operation on a container of the given kind and length; returns (op, new length)
+fn rand_op(w: &mut World, r: u64, path: &[String], kind: char, len: u32, keys: &mut Vec<String>, force: Option<&str>) -> (Value, u32) {
+    let p: Vec<Value> = path.iter().map(|s| json!(s)).collect();
+    let top = path.len() == 1;
+    match kind {
+        't' | 'a' => {
+            let del = match force {
+                Some("del") => len > 0,
+                Some(_) => false,
+                None => len > 0 && w.rng.chance(1, 3),
+            };
+            if del {
+                let n = 1 + w.rng.below(2.min(len as u64)) as u32;
+                let i = w.rng.below((len - n + 1) as u64) as u32;
+                (json!({"a": "del", "r": r, "p": p, "i": i, "n": n}), len - n)
+            } else {
+                let i = w.rng.below(len as u64 + 1) as u32;
+                let k = if kind == 'a' && top && w.rng.chance(1, 5) { if w.rng.chance(1, 2) { "A" } else { "M" } } else { "u" };
+                let n = if k == "u" { 1 + w.rng.below(3) as u32 } else { 1 };
+                (json!({"a": "ins", "r": r, "p": p, "i": i, "n": n, "k": k}), len + n)
+            }
+        }
+        _ => {
+            let cand: [&str; 2] = if top { ["k1", "k2"] } else { ["k1", "k3"] };
+            let key = cand[w.rng.below(2) as usize].to_string();
+            let has = keys.contains(&key);
+            let rem = match force {
+                Some("del") => has,
+                Some(_) => false,
+                None => has && w.rng.chance(1, 3),
+            };
+            if rem {
+                keys.retain(|k| k != &key);
+                (json!({"a": "rem", "r": r, "p": p, "key": key}), len)
+            } else {
+                if !has {
+                    keys.push(key.clone());
+                }
+                let k = if top && w.rng.chance(1, 5) { if w.rng.chance(1, 2) { "A" } else { "M" } } else { "u" };
+                (json!({"a": "set", "r": r, "p": p, "key": key, "k": k}), len)
+            }
+        }
+    }
+}
+
+pub fn random_step(w: &mut World, authors: &[u64], _all: &[u64]) -> Option<Value> {
+    if unsupported(w) {
+        return None;
+    }
+    let r = authors[w.rng.below(authors.len() as u64) as usize];
+    let ri = w.rep(r);
+    let conts = containers(w, ri);
+    if conts.is_empty() {
+        return None;
+    }
+    let (path, kind, len, mut keys) = conts[w.rng.below(conts.len() as u64) as usize].clone();
+    let mut ops = Vec::new();
+    let shape = w.rng.below(5);
+    match shape {
+        0 if kind != 'm' => {
+            // insert, then delete (part of) what was just inserted
+            let i = w.rng.below(len as u64 + 1) as u32;
+            let n = 1 + w.rng.below(3) as u32;
+            let p: Vec<Value> = path.iter().map(|s| json!(s)).collect();
+            ops.push(json!({"a": "ins", "r": r, "p": p, "i": i, "n": n, "k": "u"}));
+            let m = 1 + w.rng.below(n as u64) as u32;
+            let j = i + w.rng.below((n - m + 1) as u64) as u32;
+            ops.push(json!({"a": "del", "r": r, "p": p, "i": j, "n": m}));
+        }
+        0 => {
+            // set and remove the same key
+            let p: Vec<Value> = path.iter().map(|s| json!(s)).collect();
+            let key = if path.len() == 1 { ["k1", "k2"][w.rng.below(2) as usize] } else { ["k1", "k3"][w.rng.below(2) as usize] };
+            let k = if path.len() == 1 && w.rng.chance(1, 4) { "M" } else { "u" };
+            ops.push(json!({"a": "set", "r": r, "p": p, "key": key, "k": k}));
+            ops.push(json!({"a": "rem", "r": r, "p": p, "key": key}));
+            if w.rng.chance(1, 3) {
+                ops.push(json!({"a": "set", "r": r, "p": p, "key": key, "k": "u"}));
+            }
+        }
+        1 | 2 => {
+            // two or three operations on the same container (a nested value created here is not entered)
+            let mut l = len;
+            for _ in 0..(2 + w.rng.below(2)) {
+                let (op, l2) = rand_op(w, r, &path, kind, l, &mut keys, None);
+                l = l2;
+                ops.push(op);
+            }
+        }
+        3 => {
+            // delete, then insert in the same container
+            let (op, l2) = rand_op(w, r, &path, kind, len, &mut keys, Some("del"));
+            ops.push(op);
+            let (op, _) = rand_op(w, r, &path, kind, l2, &mut keys, Some("ins"));
+            ops.push(op);
+        }
+        _ => {
+            // edits in two types below different roots
+            let (op, _) = rand_op(w, r, &path, kind, len, &mut keys, None);
+            ops.push(op);
+            let others: Vec<_> = conts.iter().filter(|c| c.0[0] != path[0]).cloned().collect();
+            if !others.is_empty() {
+                let (p2, k2, l2, mut ks2) = others[w.rng.below(others.len() as u64) as usize].clone();
+                let (op, _) = rand_op(w, r, &p2, k2, l2, &mut ks2, None);
+                ops.push(op);
+            }
+        }
+    }
+    Some(json!({"a": "multi", "r": r, "ops": ops}))
 }
